@@ -120,6 +120,7 @@ func labelName(k any) string {
 }
 
 var rawIndex []string // raw item (1 byte) -> label
+var protectedUniverse []any
 
 func stubCBORUnmarshal(data []byte, v any) error {
 	hm, ok := v.(*map[any]cbor.RawMessage)
@@ -280,9 +281,17 @@ func stubParseCert(der []byte) (*x509.Certificate, error) {
 			return c, nil
 		}
 	}
+	// sign side: the bytes are the Raw field of a certificate the signer handed over; parsing gives that certificate back
+	for _, c := range knownCerts {
+		if rt.Same(c.Raw, der) {
+			return c, nil
+		}
+	}
 	rt.Fail("ParseCertificate on bytes that are not a chain element")
 	return nil, nil
 }
+
+var knownCerts []*x509.Certificate
 
 var chainVerdict bool
 var chainCalls int
